@@ -25,6 +25,7 @@ CONSTANTS
   DropKeepsDefault = TRUE
   RenameKeepsDefault = TRUE
   HalfYearIsLong = TRUE
-INVARIANTS Inv_Names Inv_ShardGroups Inv_Durations
+  RenameAcceptsEmpty = TRUE
+INVARIANTS Inv_ShardGroups Inv_Durations
 VIEW View
 CHECK_DEADLOCK FALSE
